@@ -60,10 +60,10 @@ func kinAssoc(ck string, kv ...kinItem) kinItem {
 var kinNil = kinItem{"nil", model.VNil()}
 
 var kinPools = map[string][]kinItem{
-	"int": {kinInt(-9223372036854775808), kinInt(-9223372036854775807), kinInt(-1), kinInt(0), kinInt(1), kinInt(9223372036854775806), kinInt(9223372036854775807)},
-	"uint": {kinUint(0), kinUint(1), kinUint(1<<63 - 1), kinUint(1 << 63), kinUint(1<<63 + 1), kinUint(1<<64 - 1)},
+	"int":    {kinInt(-9223372036854775808), kinInt(-9223372036854775807), kinInt(-1), kinInt(0), kinInt(1), kinInt(9223372036854775806), kinInt(9223372036854775807)},
+	"uint":   {kinUint(0), kinUint(1), kinUint(1<<63 - 1), kinUint(1 << 63), kinUint(1<<63 + 1), kinUint(1<<64 - 1)},
 	"string": {kinStr(""), kinStr("a"), kinStr("ab"), kinStr("b"), kinStr("é"), kinStr("ü"), kinStr("aé")},
-	"rune": {kinRune('a'), kinRune('b'), kinRune('é'), kinRune('ü'), kinRune('~'), kinRune('😀')},
+	"rune":   {kinRune('a'), kinRune('b'), kinRune('é'), kinRune('ü'), kinRune('~'), kinRune('😀')},
 	"List": {kinSeq("List"), kinSeq("List", kinInt(1)), kinSeq("List", kinInt(1), kinInt(2)), kinSeq("List", kinInt(1), kinInt(3)), kinSeq("List", kinInt(2)),
 		kinSeq("List", kinInt(-1)), kinSeq("List", kinInt(9223372036854775807))},
 	"Set": {kinSeq("Set"), kinSeq("Set", kinInt(1)), kinSeq("Set", kinInt(1), kinInt(2)), kinSeq("Set", kinInt(2)), kinSeq("Set", kinInt(1), kinInt(3))},
